@@ -155,12 +155,14 @@ fn run_variant<T: Sc, F: Factory<T>>(sc: &Scenario, parallel: bool, sched: &Sche
         if seed % 4 == 0 {
             let sch_pct = shuttle::scheduler::PctScheduler::new_from_seed(seed, 3, 1);
             shuttle::Runner::new(sch_pct, cfg).run(move || {
+                let _scope = crate::ctl::ShuttleScope::enter();
                 let v = run_variant_plain::<T, F>(&scc, parallel, &sch, tap);
                 *out2.lock().unwrap() = Some(v);
             });
         } else {
             let sch_rand = shuttle::scheduler::RandomScheduler::new_from_seed(seed, 1);
             shuttle::Runner::new(sch_rand, cfg).run(move || {
+                let _scope = crate::ctl::ShuttleScope::enter();
                 let v = run_variant_plain::<T, F>(&scc, parallel, &sch, tap);
                 *out2.lock().unwrap() = Some(v);
             });
